@@ -11,7 +11,7 @@ TMOD = "server/AcceptDispatchTrace.tla"
 SMOD = "server/AcceptDispatchStrict.tla"
 VARIANTS = ["IgnoreUnknownIdx", "UnlinkOnDeregister", "ResumeClearsBackoff", "IncBeforeSend", "NoClearOnLimit", "ResumeSkipsAcceptAll",
             "BackoffNeverReregisters", "RoundRobinStuck", "ConnErrIsFatal", "WakeSkipsAcceptAll", "PauseKeepsRegistered",
-            "RejoinPausedNoAvail", "ResetSeparate", "JumpToFirstAvailable", "ReportOnlyIfBitSet"]
+            "RejoinPausedNoAvail", "ResetSeparate", "JumpToFirstAvailable", "ReportOnlyIfBitSet", "ResendWithoutCheck"]
 
 
 def read_cfg_constants(cfg):
